@@ -57,7 +57,9 @@ func ruleExhaustionPath(c *Ctx, r *Rule) {
 		}
 	}
 	r.Ob(len(resets) == 1, name+"|single-reset", fn.Pos(), fmt.Sprintf("%d batch.reset() calls in the retry function (expected 1)", len(resets)))
-	isFlag := func(v ssa.Value) bool { return isLoadOfField(v, pipelinePkg, "RetriableBatcher", "isDeadQueueAvailable") }
+	isFlag := func(v ssa.Value) bool {
+		return isLoadOfField(v, pipelinePkg, "RetriableBatcher", "isDeadQueueAvailable")
+	}
 	for _, rs := range resets {
 		g := false
 		for _, l := range c.unitGuards(rs) {
